@@ -5,6 +5,7 @@ CONSTANTS
   Algo = "asis"
   SeedCopyreg = "live"
   InitGuard = FALSE
+  CacheById = FALSE
   KwOnlyOK = TRUE
   SharedCtx = FALSE
   CtxCopy = TRUE
